@@ -189,11 +189,12 @@ inductive Tree where
 
 mutual
 /-- `Derives X ts cs`: the symbol `X` derives the token string `ts`, and lark's tree builder turns
-that derivation into the list of children `cs` (a filtered token contributes nothing, a kept token
+that derivation into the list of children `cs` (a filtered token — an anonymous terminal, whose text
+is fixed — contributes nothing, a kept token
 a leaf, an inlined helper rule its children, any other rule one node). -/
 inductive Derives : Sym → List Tok → List Tree → Prop where
   | tokKeep (k : TK) (s : String) : k.named = true → Derives (.t k) [⟨k, s⟩] [.leaf k s]
-  | tokDrop (k : TK) (s : String) : k.named = false → Derives (.t k) [⟨k, s⟩] []
+  | tokDrop (k : TK) : k.named = false → Derives (.t k) [Tok.a k] []
   | rule (a : NT) (rhs : List Sym) (ts : List Tok) (cs : List Tree) :
       (a, rhs) ∈ productions → DerivesSeq rhs ts cs → a.inline = false → Derives (.n a) ts [.node a cs]
   | ruleInline (a : NT) (rhs : List Sym) (ts : List Tok) (cs : List Tree) :
